@@ -449,6 +449,14 @@ class ApplicationIOController(IOController, Application):
             ApplicationIOController._debug("no active request for %r" % (address,))
             return
 
+        # a late reply to an earlier request that the client gave up on (IOCB
+        # aborted or timed out) must not complete the request active now
+        request = queue.active_iocb.args[0]
+        if (apdu is not None) and (request.apduInvokeID is not None) \
+                and (apdu.apduInvokeID != request.apduInvokeID):
+            if _debug: ApplicationIOController._debug("    - not for the active request")
+            return
+
         # this request is complete
         if isinstance(apdu, (None.__class__, SimpleAckPDU, ComplexAckPDU)):
             queue.complete_io(queue.active_iocb, apdu)
